@@ -392,7 +392,7 @@ func TestVerifC49RealSockets(t *testing.T) {
 			b.do(func() { b.c.Start() })
 			a.do(func() { a.c.Start(); a.c.CreateTunnel(b.vpn) })
 			up := false
-			for i := 0; i < 500 && !up; i++ {
+			for i := 0; i < c49rAttempts && !up; i++ {
 				time.Sleep(10 * time.Millisecond)
 				up = a.c.GetHostInfoByVpnAddr(b.vpn, false) != nil && b.c.GetHostInfoByVpnAddr(a.vpn, false) != nil
 			}
